@@ -542,3 +542,60 @@ def same_value(t, a, b, env):
         return norm_sexp(t, _s.parse(a), env) == norm_sexp(t, _s.parse(b), env)
     except Exception:
         return a == b
+
+BIG_LENGTHS = [0, 1, 127, 128, 129, 255, 256, 8191, 8192, 16383, 16384, 16385, 32767, 32768, 49151, 49152, 65535, 65536, 65537]
+
+def boundary_module(rng, quick=True):
+    """A fixed module exercising the length / width / tag boundaries, with its explicit values.
+    Returns (module, {type name: [python values]})."""
+    T = lambda k, **kw: dict(k=k, **kw)
+    types = [
+        ("BOs", T("OCTET STRING")), ("BBs", T("BIT STRING")), ("BIa", T("IA5String")), ("BU8", T("UTF8String")),
+        ("BBmp", T("BMPString")),
+        ("BSoB", T("SEQUENCE OF", elem=T("BOOLEAN"), size=None)),
+        ("BSoI", T("SEQUENCE OF", elem=T("INTEGER", cons=cons(0, 7)), size=None)),
+        ("BStI", T("SET OF", elem=T("INTEGER", cons=cons(0, 255)), size=None)),
+        ("BOsC", T("OCTET STRING", size=cons(0, 70000))), ("BOsE", T("OCTET STRING", size=cons(1, 2, True))),
+        ("BSoC", T("SEQUENCE OF", elem=T("BOOLEAN"), size=cons(0, 70000))),
+        ("BSoN", T("SEQUENCE OF", elem=T("NULL"), size=None)),      # zero-width elements: decoders cut at 200 (C15)
+    ]
+    vals = {}
+    lens = BIG_LENGTHS if not quick else [0, 1, 127, 128, 129, 8191, 8192, 16383, 16384, 16385, 32768, 49152, 65535, 65536]
+    def rb(n): return bytes(rng.getrandbits(8) for _ in range(n))
+    vals["BOs"] = [rb(n) for n in lens]
+    vals["BOsC"] = [rb(n) for n in lens]
+    vals["BOsE"] = [rb(n) for n in (1, 2, 0, 3, 127, 128, 16384)]
+    vals["BBs"] = [(rb((n + 7) // 8)[:-1] + b"\x01" if n % 8 == 0 and n else (rb((n + 7) // 8 - 1) + bytes([1 << (8 - n % 8)]) if n else b""), (8 - n % 8) % 8) for n in lens + [3, 9, 8 * 16384 + 1]]
+    vals["BIa"] = ["".join(chr(rng.randrange(0x20, 0x7f)) for _ in range(n)) for n in lens]
+    vals["BU8"] = ["".join(rng.choice("aé€") for _ in range(n)) for n in lens[:10]]
+    vals["BBmp"] = ["".join(rng.choice("aé€") for _ in range(n)) for n in lens[:11]]
+    llens = [n for n in lens if n <= 16385]
+    vals["BSoB"] = [[bool(rng.getrandbits(1)) for _ in range(n)] for n in llens]
+    vals["BSoN"] = [[None] * n for n in (0, 1, 127, 128, 199, 200)]
+    vals["BSoI"] = [[rng.randrange(8) for _ in range(n)] for n in (0, 1, 127, 128, 199, 200)]     # > 200: F47
+    vals["BStI"] = [[rng.randrange(256) for _ in range(n)] for n in (0, 1, 2, 127, 128, 200)]
+    vals["BSoC"] = [[bool(rng.getrandbits(1)) for _ in range(n)] for n in llens]
+    # integer width boundaries (PER range_bits, OER widths)
+    for i, (lo, hi) in enumerate([(0, 1), (0, 2), (0, 127), (0, 128), (0, 254), (0, 255), (0, 256), (1, 256), (0, 65535), (0, 65536),
+                                   (0, 4294967295), (0, 4294967296), (-128, 127), (-129, 127), (-128, 128), (-32768, 32767), (-32769, 32767),
+                                   (-2147483648, 2147483647), (-2147483649, 2147483647), (3, 3), (-5, -5), (0, (1 << 63) - 1),
+                                   (-(1 << 63), (1 << 63) - 1), (100, 100 + 255), (100, 100 + 256), (0, 16777215), (0, 16777216)]):
+        n = f"BI{i}"
+        types.append((n, T("INTEGER", cons=cons(lo, hi))))
+        vs = {lo, hi, min(lo + 1, hi), max(hi - 1, lo), (lo + hi) // 2}
+        for e in (0, 127, 128, 255, 256, 65535, 65536, -1, -128, -129):
+            if lo <= e <= hi: vs.add(e)
+        vals[n] = sorted(vs)
+    for i, c in enumerate([None, cons(0, None), cons(None, 0), cons(0, 7, True), cons(-1, 1, True), cons(0, 255, True)]):
+        n = f"BJ{i}"
+        types.append((n, T("INTEGER", cons=c)))
+        vals[n] = sorted(v for v in int_boundaries(c) if (c is None or in_cons(c, v) or c["ext"]) and not (c and int_repr(c) == "ulong" and v < 0))
+    # tag number boundaries (BER identifier octets; UPER/OER index)
+    tagnums = [0, 30, 31, 32, 127, 128, 129, 16383, 16384, 2097151, 2097152, 268435455]
+    types.append(("BTagS", T("SEQUENCE", comps=[{"id": f"t{n}", "type": T("INTEGER", cons=cons(0, 255), tag=("ctx", n, m)), "opt": "OPTIONAL"}
+                                                for n, m in zip(tagnums, ["IMPLICIT", "EXPLICIT"] * 6)])))
+    vals["BTagS"] = [{f"t{n}": n % 256 for n in tagnums}, {}, {"t31": 1}, {"t16384": 2, "t0": 0}]
+    types.append(("BTagC", T("CHOICE", comps=[{"id": f"c{n}", "type": T("NULL", tag=(cl, n, "")) } for cl, n in
+                                               [("ctx", 0), ("ctx", 31), ("app", 5), ("priv", 6), ("ctx", 127), ("ctx", 128), ("ctx", 16384), ("app", 16383)]])))
+    vals["BTagC"] = [(f"c{n}", None) for n in (0, 31, 5, 6, 127, 128, 16384, 16383)]
+    return {"name": "BND", "tagdefault": "IMPLICIT", "types": types}, vals
